@@ -7,6 +7,7 @@ From Coq Require Import String List Bool Arith NArith.
 From NV Require Import Gen.GenOrderings Model.BoxcarRA Proofs.C09Facts.
 From NV Require Model.Boxcar.
 Import ListNotations.
+From NV Require Import Gen.GenBoxcar.
 
 (* ---- race freedom: any number of threads, any interleaving, any permitted stale read ---------------- *)
 Theorem C09_race_free : forall o, orderings_ok o = true -> forall s, reachable o s -> race s = false.
@@ -204,3 +205,12 @@ Print Assumptions C09_need_get_active.
 Print Assumptions C09_need_next_active.
 Print Assumptions C09_nonvacuous.
 Print Assumptions C09_location_agrees.
+
+(* Tie of the models' allocation step to the source (translated structurally, Gen/GenBoxcar.v): a bucket is allocated
+   and every `active` flag cleared BEFORE the compare_exchange that publishes it, and the winner does nothing more
+   to it.  Model/Boxcar.v and Model/BoxcarRA.v treat "allocate + initialise + publish" as one step of the allocating
+   thread; a source in which initialisation follows publication (a published entry can be reset to inactive by the
+   winner's late initialisation loop: a completed push is lost) makes this obligation fail. *)
+Theorem C09_bucket_init_before_publish : bucket_init_before_publish = true.
+Proof. reflexivity. Qed.
+Print Assumptions C09_bucket_init_before_publish.
